@@ -3,7 +3,7 @@ import GlmVerif.Hand.C18
 import GlmVerif.Props.C18.Common
 import GlmVerif.Props.C18.Multiple
 /-!
-C18 — gtx/integer.inl: pow, mod, factorial, nlz, sqrt.
+C18 — gtx/integer.inl: pow, mod, factorial, nlz (sqrt: Props/C18/Sqrt.lean).
 
 * `nlz` = number of leading zeros, all 2^32 inputs (bv_decide).
 * `pow(uint,uint)` = x^y modulo 2^32 for ALL x, y (induction on the loop); `pow(int,uint)`: the same for y ≠ 0 or
@@ -12,7 +12,7 @@ C18 — gtx/integer.inl: pow, mod, factorial, nlz, sqrt.
 * `mod(uint,uint)` = x mod y; `mod(int,int)` = x - y·⌊x/y⌋ (characterised as the residue with the sign of y) whenever
   the intermediate `(x % y) + y` does not overflow.
 * `factorial<T>` = n! for every n whose factorial is representable in T (by evaluation: finitely many n).
-* `sqrt`: ⌊√x⌋ by evaluation for all x < 400; beyond that only explored (2^28 inputs in the thorough tier).
+* `sqrt`: see Props/C18/Sqrt.lean (all inputs).
 -/
 set_option maxRecDepth 8192
 namespace GlmVerif.C18.Props
@@ -144,10 +144,5 @@ theorem factorialS_32 : ∀ n : Fin 13, factorialS 32 (BitVec.ofNat 32 n) = BitV
 theorem factorialU_64 : ∀ n : Fin 21, factorialU 64 (BitVec.ofNat 64 n) = BitVec.ofNat 64 (Spec.fact n) := by decide
 theorem factorialS_64 : ∀ n : Fin 21, factorialS 64 (BitVec.ofNat 64 n) = BitVec.ofNat 64 (Spec.fact n) := by decide
 example : Spec.fact 12 = 479001600 ∧ Spec.fact 13 > 4294967295 ∧ Spec.fact 5 = 120 ∧ Spec.fact 20 < 2 ^ 63 ∧ Spec.fact 21 > 2 ^ 64 := by decide
-
-/-! sqrt: by evaluation on an initial segment (the general statement is explored, not proved) -/
-theorem sqrtU_small : ∀ n : Fin 400, Spec.isSqrt n (sqrtU (BitVec.ofNat 32 n)).toNat = true := by decide +kernel
-theorem sqrtS_small : ∀ n : Fin 400, Spec.isSqrt n (sqrtS (BitVec.ofNat 32 n)).toInt = true := by decide +kernel
-example : sqrtU 0xFFFFFFFF#32 = 65535 ∧ sqrtS 0x7FFFFFFF#32 = 46340 ∧ sqrtU 16 = 4 ∧ sqrtU 15 = 3 := by decide +kernel
 
 end GlmVerif.C18.Props
